@@ -168,7 +168,7 @@ class C01(core.Property):
     ]
     quick_cases = 1200
     thorough_cases = 30000
-    case_timeout_s = 8
+    case_timeout_s = 20
     rule = ("programs: 1–4 scripted entities, ≤6 event kinds forming a DAG (+ a self-rearming daemon tick), ≤11 pre-run "
             "events on a small time grid with deliberate same-nanosecond clusters, daemon / pre-cancelled events, handlers that "
             "are plain functions or generators (≤3 segments, float delays incl. 0, 1e-9, 3e-10), emits with delay 0/1 ns/…, "
